@@ -206,9 +206,9 @@ def literal_classes(s, ctx):
     t = trailing_newlines(s)
     j = next((i for i, l in enumerate(lines) if l.strip(" ") != ""), None)
     if j is None:
-        # only spaces and line feeds: there is no content line for the scanner to find
-        if not (s == "\n" and ctx in ("last", "root")):
-            out.append("K5-only-spaces-and-newlines")
+        # only spaces and line feeds: there is no content line for the scanner to find (a contentless block scalar
+        # is the empty string under clip/strip chomping, also at the end of the stream since parser fix e9e1eb4)
+        out.append("K5-only-spaces-and-newlines")
         return out
     if any(l.startswith(" ") for l in lines[:j + 1]):
         out.append("K2-leading-space-before-or-on-first-content-line")
